@@ -83,6 +83,17 @@ COLL_OPS = [
     ("Pc[1]", (2, 3), ("Pc",), lambda a: a[1]),
     ("list(Lc)", (2, 3), ("Lc",), lambda a: list(a)),
     ("Pc.expand_dims", (2, 3), ("Pc",), lambda a: a.expand_dims(0)),
+    ("Sc.expand_dims(0)", (2, 3), ("Sc",), lambda a: a.expand_dims(0)),
+    ("Sc.expand_dims(-3)", (2, 3), ("Sc",), lambda a: a.expand_dims(-3)),
+    ("Gc.expand_dims(0)", (2, 3), ("Gc",), lambda a: a.expand_dims(0)),
+    ("Lc.expand_dims(0)", (2, 3), ("Lc",), lambda a: a.expand_dims(0)),
+    ("Qc.expand_dims(1)", (2, 3), ("Qc",), lambda a: a.expand_dims(1)),
+    ("Tc.expand_dims(0)", (2, 3), ("Tc",), lambda a: a.expand_dims(0)),
+    ("Sc[0]", (2, 3), ("Sc",), lambda a: a[0]),
+    ("Gc[-1]", (2, 3), ("Gc",), lambda a: a[-1]),
+    ("Sc.intersect(l0)", (2,), ("Sc", "l0"), lambda a, b: a.intersect(b)),
+    ("Pc.transpose", (2, 3), ("Pc",), lambda a: a.transpose()),
+    ("Lc.copy", (2, 3), ("Lc",), lambda a: a.copy()),
     ("Conic.from_lines", (2,), ("l0", "l1"), lambda a, b: G.Conic.from_lines(a, b)),
     ("Quadric.from_planes", (3,), ("e0", "e2"), lambda a, b: G.Quadric.from_planes(a, b)),
     ("Conic.from_points", (2,), ("p0", "p1", "p2", "p3", "pon"), lambda *a: G.Conic.from_points(*a)),
